@@ -196,7 +196,8 @@ def make_machine(plugin: str, pool: Pool, ctx: Ctx, stats: collections.Counter, 
             super().__init__()
             self.base_dir = gen.scratch(f"lspverif-c16-{plugin}-")
             # the name of the output directory is not part of the input either: brackets, blanks, wildcards, non-ASCII
-            name = ODD_DIR_NAMES[(len(refs) + stats["runs"]) % len(ODD_DIR_NAMES)]
+            name = ODD_DIR_NAMES[(len(refs) + stats["runs"]) % len(ODD_DIR_NAMES)] if stats["machines"] else "out[v2] caf\u00e9"
+            stats["machines"] += 1   # (the first machine of a worker is the one of the scripted history, when there is one)
             self.out = os.path.join(self.base_dir, name) if name else self.base_dir
             os.makedirs(self.out, exist_ok=True)
             self.history: List[Any] = []
